@@ -2,7 +2,12 @@
 
 Every rule compares *values*: what a writer emits for a generic matrix (one generic column, one generic string of non-zeros; evaluated
 by verifier/c04_sem.py on symbols, following helpers, nested functions, generators) with what the matching loader recovers from exactly
-those records (verifier/c04_lab.py).  Nothing depends on how op4.py spells or arranges the computation."""
+those records (verifier/c04_lab.py).  Nothing depends on how op4.py spells or arranges the computation.
+
+Two safety nets keep "the evaluation could not follow the code" apart from "the code is wrong" (pass 3): the evaluator records a *lowering gap*
+whenever it skips or drops something (c04_sem.World.gap) and `guarded` turns every failure derived from a world with a gap into "not decided" (exit
+2, the gaps are named); statements that provably raise on the evaluated path (unbound local, undefined name, arithmetic on a text) and reads that
+cut what the writer emitted are `Bad` values - violations - and what the evaluator cannot follow after one of them is a consequence, not a gap."""
 from __future__ import annotations
 
 import ast
@@ -329,8 +334,12 @@ def r3_string_headers(ctx):
                         d = run.data
                         ok = d is not None and len(d.items) == 1 and d.items[0].code == "d"
                         if d is None:
-                            # no block of values found among the records (values packed one by one, or in a way the cutter does not see): not decided
-                            ctx.error(f"{tag}: the block of packed values of a column", run.colhdr.node, repr(getattr(run, "items", None))[:300])
+                            # no block of values among the records.  Reals packed one at a time (which the cutter does not assemble): not decided;
+                            # no reals at all besides the sentinel's: the values are not written
+                            if loose_reals(run):
+                                ctx.error(f"{tag}: the block of packed values of a column", run.colhdr.node, repr(getattr(run, "items", None))[:300])
+                            else:
+                                ctx.fail(f"{tag}: the column's values are packed as doubles", run.colhdr.node, "no values are packed between the column header and its trailer")
                             continue
                         ctx.check(ok, f"{tag}: the column's values are packed as doubles", d.node, None if ok else repr(d.items)[:200])
                         if not ok:
@@ -403,7 +412,10 @@ def r3_string_headers(ctx):
                         d = run.data
                         ok = d is not None and len(d.items) == 1 and d.items[0].code == "d"
                         if d is None:
-                            ctx.error(f"{tag}: the block of packed values of a string", run.strhdr.node, repr(getattr(run, "items", None))[:300])
+                            if loose_reals(run):
+                                ctx.error(f"{tag}: the block of packed values of a string", run.strhdr.node, repr(getattr(run, "items", None))[:300])
+                            else:
+                                ctx.fail(f"{tag}: the string's values are packed as doubles", run.strhdr.node, "no values are packed after the string header")
                             continue
                         ctx.check(ok, f"{tag}: the string's values are packed as doubles", d.node, None if ok else repr(d.items)[:200])
                         if not ok:
@@ -551,6 +563,12 @@ def r3_string_headers(ctx):
                     ctx.check(ok, f"{'_loadop4_' + enc} <- {tag}, {other.regime()}: the loader selects the reader of the layout that was written, consumes exactly "
                                   "the records emitted and recovers first row and column", S.func_of(ctx, "OP4._loadop4_" + enc),
                               None if ok else {"not consumed": repr(lo.left)[:200], "misread": obad[:2], "store": repr(lo.put[1][1:3])[:200] if lo.put else None})
+
+
+def loose_reals(run):
+    """does the binary trace hold reals packed one at a time (apart from the sentinel's single value)?"""
+    sent = set(id(it) for it in (run.sent_data.items if run.sent_data is not None else ()))
+    return any(it.code in "dfeg" and not it.run and id(it) not in sent for it in getattr(run, "items", ()))
 
 
 def depends_any(v, w):
@@ -1473,7 +1491,9 @@ MANIFEST = {
             "the exact residue and fails the decode(encode) identity), sparse input is canonicalised, the sparse symmetry test that decides form 6 is "
             "mirror-symmetric under transposition (sort orders included) and applies the same closeness rule to a pair of mirror entries as the ndarray "
             "arm (same kind: exact / element-wise tolerance / tolerance from a reduction over the whole matrix; same tolerances), no function reachable "
-            "from the binary loader reinterprets bytes read in the file's byte order. Not decided: float() parsing exactness, "
+            "from the binary loader reinterprets bytes read in the file's byte order. A construct of the analysed functions the evaluator cannot "
+            "lower (a lowering gap: unknown statement kind, dropped write, effects under an undecided test, call of an unmodelled module-level object) "
+            "is an analysis error and downgrades every failure derived from the same evaluation to 'not decided'. Not decided: float() parsing exactness, "
             "_sparse_col_stats on arbitrary patterns, scipy.sparse behaviour.",
     "note": "Trusted: CPython ast; verifier/e2_formula.py polynomial arithmetic with the bit-operator model of verifier/op4_model.py (<< k = * 2^k; >> k, // 2^k, % 2^k "
             "and & (2^k - 1) resolved only when the low part is declared below 2^k: first row + 1 <= rows < 2^16 for the nonbigmat layout; when its attained "
